@@ -628,6 +628,22 @@ func main() {
 			must(os.WriteFile(filepath.Join(*out, "src", e.Name()), data, 0o644))
 		}
 	}
+	// adapter for the one internal entry point the harness calls whose calling convention has been seen to
+	// vary between trees: Matcher.scan takes the request by value or by pointer
+	scanArg := "r"
+	for _, c := range ctxs {
+		if c.rel != "src/matcher.go" {
+			continue
+		}
+		for _, d := range c.f.Decls {
+			if fd, ok := d.(*ast.FuncDecl); ok && fd.Name.Name == "scan" && fd.Recv != nil && fd.Type.Params != nil && len(fd.Type.Params.List) == 1 {
+				if _, ptr := fd.Type.Params.List[0].Type.(*ast.StarExpr); ptr {
+					scanArg = "&r"
+				}
+			}
+		}
+	}
+	must(os.WriteFile(filepath.Join(*out, "src", "zz_adapt_gen_test.go"), []byte("//go:build verif\n\npackage fzf\n\n// generated by simport\nfunc scanReq(m *Matcher, r MatchRequest) (*Merger, bool) { return m.scan("+scanArg+") }\n"), 0o644))
 	sort.Strings(rep.Begins)
 	j, _ := json.MarshalIndent(rep, "", " ")
 	must(os.WriteFile(filepath.Join(*out, "simport-report.json"), j, 0o644))
